@@ -448,20 +448,20 @@ PROPS = {
     "C02": dict(fams=[("core", 3), ("crash", 2)], corpus=["core", "crash"], mc="MC_core3", mc_deep="MC_core3_deep", gen=[("Gen_core3", ["a", "b", "c"], 40)]),
     "C03": dict(fams=[("core", 4), ("crash", 1)], corpus=["core"], mc="MC_core3", mc_deep="MC_core3_deep", gen=[("Gen_core3", ["a", "b", "c"], 40)]),
     "C04": dict(fams=[("crash", 5)], corpus=["crash"], mc="MC_crash3", mc_deep="MC_crash3_deep"),
-    "C05": dict(fams=[("reads", 5)], corpus=["reads"], mc="MC_reads"),
+    "C05": dict(fams=[("reads", 5)], corpus=["reads"], mc="MC_reads3", mc_deep="MC_reads3_deep"),
     "C06": dict(fams=[("core", 3), ("crash", 2)], corpus=["core", "crash"], mc="MC_core3", mc_deep="MC_core3_deep", gen=[("Gen_core3", ["a", "b", "c"], 40)], hae=True),
     "C07": dict(fams=[("core", 3), ("crash", 2)], corpus=["core", "crash"], mc="MC_core3", mc_deep="MC_core3_deep", gen=[("Gen_core3", ["a", "b", "c"], 40)]),
     "C08": dict(fams=[("core", 2), ("crash", 3)], corpus=["core", "crash"], mc="MC_crash3", mc_deep="MC_crash3_deep", hrv=True),
     "C14": dict(fams=[("crash", 3), ("snap", 2)], corpus=["crash", "snap"], mc="MC_crash3", mc_deep="MC_crash3_deep", crashpoints=True),
-    "C09": dict(fams=[("member", 3), ("member5", 3)], corpus=["member"], mc="MC_member4", mc_module="MC_core3", monitor_props=["C01", "C02", "C07", "C09", "C05"],
+    "C09": dict(fams=[("member", 3), ("member5", 3)], corpus=["member"], mc="MC_member3", mc_deep="MC_member3_deep", monitor_props=["C01", "C02", "C07", "C09", "C05"],
                 gen=[("Gen_member4", ["a", "b"], 45, ["c", "d"])]),
-    "C10": dict(fams=[("snap", 6)], corpus=["snap"], mc="MC_snap3", gen=[("Gen_snap3", ["a", "b", "c"], 45)], snaprace=True),
-    "C11": dict(fams=[("snap", 6)], corpus=["snap"], mc="MC_snap3", gen=[("Gen_snap3", ["a", "b", "c"], 45)], snaprace=True),
+    "C10": dict(fams=[("snap", 6)], corpus=["snap"], mc="MC_snap3", mc_deep="MC_snap3_deep", gen=[("Gen_snap3", ["a", "b", "c"], 45)], snaprace=True),
+    "C11": dict(fams=[("snap", 6)], corpus=["snap"], mc="MC_snap3", mc_deep="MC_snap3_deep", gen=[("Gen_snap3", ["a", "b", "c"], 45)], snaprace=True),
     "C12": dict(storage=True),
     "C13": dict(storage=True),
     "C15": dict(fams=[("core", 2), ("crash", 2), ("snap", 2), ("member5", 2)], corpus=["core", "crash", "snap", "member"], mc="MC_core3", healstates=True),
     "C16": dict(fams=[("healthy", 6)], corpus=["healthy"], mc=None),
-    "C17": dict(fams=[("lease", 6)], corpus=["lease"], mc=None),
+    "C17": dict(fams=[("lease", 6)], corpus=["lease"], mc="MC_timed", mc_module="RaftTimed"),
     "C18": dict(fams=[("core", 1)], corpus=["api"], api=True, mc=None),
 }
 
